@@ -667,7 +667,10 @@ class SMCSamples(BaseSamples):
         if n_samples is None:
             n_samples = len(self.x)
         log_w = self.log_weights(beta)
-        w = to_numpy(self.xp.exp(log_w - logsumexp(log_w)))
+        # Normalise after exponentiating the max-shifted weights so that the
+        # probabilities sum to one even when log_w is very large in magnitude
+        w = self.xp.exp(log_w - self.xp.max(log_w))
+        w = to_numpy(w / self.xp.sum(w))
         idx = rng.choice(len(self.x), size=n_samples, replace=True, p=w)
         return self.__class__(
             x=self.x[idx],
